@@ -23,15 +23,15 @@ c_AllArrayClasses == {"np_int8", "np_int16", "np_int32", "np_int64", "np_uint8",
    "np_float32", "np_float64", "np_bool", "np_complex64", "np_complex128", "np_be_int32", "np_be_float64",
    "list_i8", "list_u8", "list_i16", "list_u16", "list_i32", "list_u32", "list_i64", "list_u64",
    "list_float", "list_bool", "list_str", "np_str", "list_str_multibyte", "list_str_all_empty",
-   "np_datetime64_us", "np_datetime64_ns", "list_datetime", "timestamp_array", "np_obj_str", "np_obj_datetime", "list_datetime64"}
+   "np_datetime64_us", "np_datetime64_ns", "list_datetime", "timestamp_array", "np_obj_str", "np_obj_datetime", "list_datetime64", "list_datetime_tz"}
 c_AllValueClasses == {"int_three", "float_five", "str_tag", "int_small", "int_neg", "int_m2p31", "int_2p31m1", "int_2p31", "int_lt_m2p31", "int_2p63m1",
    "int_m2p63", "int_2p63", "int_2p64m1", "float", "float_nan", "float_int_valued", "bool_true", "bool_false",
    "np_bool", "str_ascii", "str_multibyte", "str_empty", "datetime", "datetime64_us", "datetime64_s",
-   "tdms_timestamp", "np_int8", "np_int16", "np_int32", "np_int64", "np_uint8", "np_uint16", "np_uint32",
+   "tdms_timestamp", "datetime_tz", "np_int8", "np_int16", "np_int32", "np_int64", "np_uint8", "np_uint16", "np_uint32",
    "np_uint64", "np_float32", "np_float64", "wrap_Int8", "wrap_Int16", "wrap_Uint8", "wrap_Uint16", "wrap_Uint32",
    "wrap_Int64", "wrap_SingleFloat", "wrap_String", "wrap_Boolean"}
 c_SeqsProps == {<<R>>, <<G1>>, <<A>>, <<R, G1, A>>}
-c_FewValueClasses == {"int_three", "float_int_valued", "float_five", "int_small", "int_2p31", "float", "str_multibyte", "datetime64_us", "wrap_Uint16"}
+c_FewValueClasses == {"datetime_tz", "int_three", "float_int_valued", "float_five", "int_small", "int_2p31", "float", "str_multibyte", "datetime64_us", "wrap_Uint16"}
 c_SeqsRefuse == {<<A>>, <<C, A>>, <<G1>>, <<B, G1, R>>}
 c_SeqsA == {<<A>>}
 c_BigClasses == {"np_float64", "np_int16", "list_str"}
